@@ -247,7 +247,7 @@ def check(prop, tier, seed, nshards):
         outdir = os.path.join(OUT, f"{prop}-{tier}-{bname}")
         shutil.rmtree(outdir, ignore_errors=True)
         os.makedirs(outdir)
-        limit = 3000 if tier == "thorough" else 900
+        limit = 7200 if tier == "thorough" else 2400  # safety net only: hangs are decided by the worker watchdog (CPU time), expiry here is inconclusive
         extra_env = {}
         if bname == "virtual-clock":
             extra_env["VERIF_ONLY_JOB"] = cfg["virtual_clock_job"]
@@ -284,12 +284,23 @@ def check(prop, tier, seed, nshards):
                 v = dict(confirmed_ops[op]); v.update({"job": job, "index": idx, "input_hex": inp.hex()[:140000]})
                 merged["violations"].append(v); merged["violation_count"] += 1
                 continue
-            rrc, rout, rdir = replay_case(worker, prop, tier, seed, job, idx)
-            confirmed = rrc not in (0, 1) or ("fatal error" in rout or "panic:" in rout)
-            if rrc == 124 or (hang and rrc not in (0, 1)):
-                confirmed = True
+            if os.path.exists(os.path.join(outdir, f"stall-{i}.json")):
+                # the worker's watchdog could not tell a hang from a starved process (long in flight,
+                # little CPU time used): the machine is too loaded for a verdict
+                inconclusive.append(f"shard {i} ({bname}) stalled in {op} ({job}#{idx}): in flight for a long time with too little CPU time to call it a hang")
+                continue
+            rrc, rout, rdir = replay_case(worker, prop, tier, seed, job, idx, limit=2400)
+            # the single-case replay decides. A hang is confirmed only by the worker's own watchdog,
+            # which judges by CPU time consumed (busy) or by none at all (blocked) - never by the
+            # wall clock alone; a replay that merely runs out of wall time is inconclusive.
+            replay_hang = rrc == 4 and bool(glob.glob(os.path.join(rdir, "hang-*.json")))
+            replay_fatal = rrc not in (0, 1, 4, 5, 124) or ("fatal error" in rout or "panic:" in rout)
+            if rrc in (5, 124) and not replay_fatal:
+                inconclusive.append(f"shard {i} ({bname}) died in {op} ({job}#{idx}) and the single-case replay ran out of time without a verdict (exit {rrc})")
+                continue
+            confirmed = replay_hang or replay_fatal
             if confirmed:
-                v = {"property": prop if prop in ("C18", "C20") else "C04", "site": op.split("#")[0], "clause": "hang" if (hang or rrc == 124) else "process-fatal",
+                v = {"property": prop if prop in ("C18", "C20") else "C04", "site": op.split("#")[0], "clause": "hang" if replay_hang else "process-fatal",
                      "shape": {"op": op}, "job": job, "index": idx, "seed": seed, "tier": tier,
                      "input_hex": inp.hex()[:140000], "detail": (rout or tail)[-1500:]}
                 merged["violations"].append(v); merged["violation_count"] += 1
